@@ -71,6 +71,9 @@ func (s *SingleSamplingRateSystem) GetSamplingRate(version uint16, obsDomainId u
 
 func NetFlowLookFor(dataFields []netflow.DataField, typeId uint16) (bool, interface{}) {
 	for _, dataField := range dataFields {
+		if dataField.PenProvided {
+			continue // enterprise-specific elements share the id space but not the meaning
+		}
 		if dataField.Type == typeId {
 			return true, dataField.Value
 		}
